@@ -57,13 +57,14 @@ def step (c impl : String) : String :=
           let t := kv toks "t"
           let g := kv toks "g"
           let what := s!"{rpc} (cfg={cfg}, {family} {p1}, mode={mode} {ms}ms)"
-          if res = "skipped" then "SKIP known hang shape (pipeline, repeated direct-assignment leaf) already observed in this run"
+          if res = "memory-guard" then specViol s!"memory: the heap of the harness process exceeded 10 GB ({kv toks "heapGB"} GB in use) — something started for earlier requests keeps allocating"
+          else if res = "skipped" then "SKIP known hang shape (pipeline, repeated direct-assignment leaf) already observed in this run"
           else if res.startsWith "PANIC" then specViol s!"panic escaped {what}: {res}"
           else if t = "hang" then
             if cfg = "pipe" && (rpc = "listobjects" || rpc = "streamed") && kv toks "dup" = "1" then
               specViol s!"hang: pipeline {what} never returned — model with a repeated direct-assignment leaf in a self-referencing relation; stacks {kv toks "stk"}"
             else specViol s!"hang: {what} had not returned long after its deadline; stacks {kv toks "stk"}"
-          else if t = "late" then specViol s!"late: {what} returned later than deadline + slack (twice)"
+          else if t = "late" then specViol s!"late: {what} returned later than deadline + 15 s slack (three times in a row)"
           else if g.startsWith "leak" then specViol s!"goroutine {g} after {what} returned (repeated on re-run); parked in {kv toks "stk"}"
           else if t = "ontime" && (g = "ok" || g = "lazy") then
             let interrupted := res = "deadline" || res = "canceled" || res = "E4004" || res = "E2058"
